@@ -49,4 +49,6 @@ def configs(tier):
 def run(tier, seed, only=None):
     cs = filt(configs(tier), only)
     META['bounds'] = {'dims': '1..3', 'degree per direction': '<= 16 (1-D) / <= 8 (2-D)', 'cells per configuration': '<= 200', 'x': 'whole (transformed) domain box incl. boundary and nodes as their own classes where the solver reaches them'}
-    return runner.run_property('C03', cs, tier, seed, META)
+    ks = [] if only else kmeta(tier)
+    META.setdefault('functions_encoded', []).append('OneDimensionalMeta::{getNumPoints, getIExact, getQExact} for all 35 global rules via ir2c + CBMC (table consistency, no signed overflow up to the level bound)')
+    return runner.run_property('C03', cs, tier, seed, META, ks)
